@@ -4,6 +4,14 @@
 #[verifier::external_body]
 pub struct Error { _p: () }
 pub type TeraResult<T> = Result<T, Error>;
+impl Error {
+    #[verifier::external_body]
+    pub fn message(s: String) -> Error { unimplemented!() }
+}
+/// the crate's own name for the engine crate (`tera::Error` in tera-contrib)
+pub mod tera { pub use super::Error; }
+#[verifier::external_body]
+pub fn vx_fmt() -> String { unimplemented!() }
 #[verifier::external_body]
 pub struct Kwargs { _p: () }
 #[verifier::external_body]
